@@ -157,8 +157,12 @@ def andThen (a : Except (DataErr String) (List (String × Json))) (b : Except (D
 def handleSchema (j : Json) : Json :=
   let inv := polOf (fld j "inv")
   let mode : Option String := if isNull (fld j "mode") then none else some (str! (fld j "mode"))
-  -- `is_required(options)` is resolved in the model (Req.holds), from the declaration and Options.mode
-  let fields := (arr! (fld j "fields")).map fun f => (declOf f).resolve mode
+  -- `is_required(options)` / `get_default(options)` are resolved in the model (FieldDecl.resolveR) from the
+  -- declaration and the running options: mode, ignore_required, force_default
+  let run : RunOpts String Json :=
+    { mode := mode, ignoreRequired := bool! (fld j "ignore_required"),
+      forceDefault := if bool! (fld j "has_force_default") then some (fld j "force_default") else none }
+  let fields := (arr! (fld j "fields")).map fun f => (declOf f).resolveR run
   let a := additionOf j
   let data := dataOf (fld j "data")
   let fix := !(bool! (fld j "legacy_deps"))
@@ -200,8 +204,14 @@ def handleFunc (j : Json) : Json :=
   Json.mkObj [("model", Json.mkObj [("args", callOut margs), ("kwargs", dataOut mkw)]),
               ("spec", Json.mkObj [("args", sargs)])]
 
+/-- a sequence of parses of one class: each step is a complete schema line (runSteps = map parseStep) -/
+def handleSequence (j : Json) : Json :=
+  let outs := (arr! (fld j "steps")).map handleSchema
+  Json.mkObj [("model", jarr (outs.map fun o => fld o "model")), ("spec", jarr (outs.map fun o => fld o "spec"))]
+
 def handle (j : Json) : Json :=
   match str! (fld j "op") with
+  | "sequence" => handleSequence j
   | "seq" => handleSeq j
   | "tuple_fixed" => handleTuple j
   | "map" => handleMap j
